@@ -619,6 +619,11 @@ func c16Validate(c *Ctx, cases []c16Case, shards int, withTable bool, report fun
 				}
 			}
 			_, _ = rec.lex(small, 0)
+			// and tokens met for the first time only now are shared from their first occurrence on
+			fresh := c16Case{fmt.Sprintf("gamma%d = %d // fresh note %d\n\"fresh text %d\" 0.%d", n, 424200+n, n, n, 25+n), false}
+			_, _ = rec.lex(fresh, 0)
+			_, _ = rec.lex(fresh, 0)
+			_, _ = rec.lex(c16Case{fresh.in + " " + fresh.in, true}, 0)
 		}
 		// interning across everything else the process does: the table is global, the evaluator shares the process with the
 		// lexer. Sessions that define, call, redefine, delete, fail, panic, expand macros, evaluate strings, save and reset
